@@ -670,6 +670,10 @@ func inF62(c *EWCase) bool {
 			if eqVal(decode(d, c.B.Codes[k]), conv(d, 0)) {
 				return true
 			}
+		case "TS":
+			if eqVal(decode(d, c.Scalar), conv(d, 0)) {
+				return true
+			}
 		case "ST":
 			if eqVal(decode(d, c.A.Codes[k]), conv(d, 0)) {
 				return true
@@ -688,9 +692,12 @@ func avoidF62(c *EWCase) {
 			}
 		}
 	}
-	if c.Form == "TT" {
+	switch c.Form {
+	case "TT":
 		fix(c.B.Codes)
-	} else {
+	case "TS":
+		c.Scalar = 1
+	default:
 		fix(c.A.Codes)
 	}
 }
